@@ -51,13 +51,23 @@ impl Check for C10 {
                 .map(|i| {
                     let named = g.chance(40);
                     let policy = *g.pick(&["accept", "accept", "accept_slow", "refuse", "refuse_slow", "blackhole", "accept_too_slow"]);
-                    let dns = if named { *g.pick(&["ok", "ok", "slow", "fail", "unknown", "hang"]) } else { "literal" };
-                    json!({"host": if named { format!("host{}.test", i) } else { format!("203.0.113.{}", 10 + i) }, "addr": format!("203.0.113.{}", 10 + i), "policy": policy,
+                    // "overlong": a name of more than 255 bytes cannot be encoded as a destination; the request fails
+                    // locally, after the stream was opened (state left behind by a failed operation)
+                    let dns = if named { *g.pick(&["ok", "ok", "slow", "fail", "unknown", "hang", "overlong"]) } else { "literal" };
+                    let overlong = format!("{}.host{}.test", "o".repeat(g.range(245, 300) as usize), i);
+                    json!({"host": if dns == "overlong" { overlong } else if named { format!("host{}.test", i) } else { format!("203.0.113.{}", 10 + i) }, "addr": format!("203.0.113.{}", 10 + i), "policy": policy,
                         "delay_ms": match policy { "accept_slow" | "refuse_slow" => g.range(1, 14_000), "accept_too_slow" => g.range(15_500, 20_000), _ => 0 }, "dns": dns, "dns_delay_ms": g.range(100, 9_000)})
                 })
                 .collect();
             let nr = g.range(1, 6);
-            let reqs: Vec<Value> = (0..nr).map(|_| json!({"host": g.range(0, nh - 1), "port": g.range(1, 65_535), "via": *g.pick(&["direct", "socks5", "socks5", "http"]), "start_ms": *g.pick(&[0u64, 0, 0, 1, 20, 5_000]), "early": g.chance(50)})).collect();
+            let reqs: Vec<Value> = (0..nr)
+                .map(|_| {
+                    let h = g.range(0, nh - 1);
+                    // (a SOCKS5 request cannot carry a name of more than 255 bytes)
+                    let via = if hosts[h as usize]["dns"] == "overlong" { *g.pick(&["direct", "direct", "http"]) } else { *g.pick(&["direct", "socks5", "socks5", "http"]) };
+                    json!({"host": h, "port": g.range(1, 65_535), "via": via, "start_ms": *g.pick(&[0u64, 0, 0, 1, 20, 5_000]), "early": g.chance(50)})
+                })
+                .collect();
             json!({"net": net, "mode": "real", "hosts": hosts, "reqs": reqs})
         } else {
             let no = g.range(1, 6);
@@ -116,7 +126,7 @@ impl Check for C10 {
         out
     }
     fn rule(&self) -> &'static str {
-        "one case = (real mode) 1-6 possibly concurrent requests through create_proxy_stream / SOCKS5 / HTTP CONNECT to 1-4 hosts whose targets accept (after 0-14 s or after more than 15 s), refuse (at once or late) or black-hole and whose names resolve, resolve slowly, fail, are unknown or hang; or (script mode) 1-6 racing opens against a scripted TLS server answering each open with an empty SYNACK at 0..29 s / around 30 s +-300 ms / after 30 s, an error text, twice, for an unknown id first, never, by killing the session at a seeded instant (connection cut, fatal alert), or by breaking the connection for the client's writes only (the next write on that session fails: the SYN of a later open that reuses it); oracle on virtual time, the simulated network's connect log and every byte the local application receives; every case is non-trivial; distinct = distinct (plan hash, poll-order fingerprint)"
+        "one case = (real mode) 1-6 possibly concurrent requests through create_proxy_stream / SOCKS5 / HTTP CONNECT to 1-4 hosts whose targets accept (after 0-14 s or after more than 15 s), refuse (at once or late) or black-hole and whose names resolve, resolve slowly, fail, are unknown, hang, or are too long to be encoded (the request fails locally after its stream was opened and must leave the pooled session usable); or (script mode) 1-6 racing opens against a scripted TLS server answering each open with an empty SYNACK at 0..29 s / around 30 s +-300 ms / after 30 s, an error text, twice, for an unknown id first, never, by killing the session at a seeded instant (connection cut, fatal alert), or by breaking the connection for the client's writes only (the next write on that session fails: the SYN of a later open that reuses it); oracle on virtual time, the simulated network's connect log and every byte the local application receives; every case is non-trivial; distinct = distinct (plan hash, poll-order fingerprint)"
     }
     fn real_components(&self) -> Vec<&'static str> {
         vec!["Client::create_proxy_stream (30 s SYNACK wait), session pool", "SOCKS5 and HTTP front-ends (reply / status)", "Session (client)", "real mode: Server::listen, TcpProxyHandler (15 s connect timeout, SYNACK with reason), resolve_host_with_cache (10 s)", "rustls both ways"]
@@ -306,6 +316,16 @@ async fn run_real(plan: &Value) -> Outcome {
             continue;
         };
         let took = done - rr.start_us;
+        if dns == "overlong" {
+            // fails locally: no success, no dial, no waiting
+            if rr.ok {
+                out.viol("ok-without-connect", format!("ok-unexpected:{}:{}:{}", via, policy, dns), format!("request #{} for a name of {} bytes reported success", i, h["host"].as_str().unwrap_or("").len()));
+            } else if took > 2_000_000 {
+                out.viol("late-completion", format!("late-completion:{}:{}:{}", via, policy, dns), format!("request #{} for an unencodable name completed only after {} ms", i, took / 1000));
+            }
+            check_frontend_reply(&mut out, via, rr, i);
+            continue;
+        }
         if took > 32_000_000 + h["dns_delay_ms"].as_u64().unwrap_or(0) * 1000 {
             out.viol("late-completion", format!("late-completion:{}:{}:{}", via, policy, dns), format!("request #{} completed after {} ms, later than the 30 s wait allows", i, took / 1000));
         }
